@@ -177,7 +177,7 @@ def Case(name, depth, iterative, rng, cid):
           'workflow': workflow,
           # tree-level validation of the unfolded rules is affordable for
           # shallow depths only (the unfolding is depth x group size predicates)
-          'stages': (not workflow) and depth is not None and depth <= 4,
+          'stages': (not workflow) and (depth is None or depth <= 8),
           'meta': {'features': feats,
                    'sig': {'family': name, 'depth': depth,
                            'iterative': iterative}}}
